@@ -4,6 +4,7 @@ Decided: where a child's write cap may be decrypted, how it may reach the
 packed plaintext, what get_write_uri() may return per node class, and which cap
 a child node is built from (DESIGN.md section 5, C18)."""
 from sa.h import *
+import copy
 
 EXPLANATION = (
     "Decided (structural, all paths): (1) DirectoryNode._unpack_contents calls _decrypt_rwcapdata only on the "
@@ -16,7 +17,14 @@ EXPLANATION = (
     "(4) every node class: get_write_uri() returns None, a delegated get_write_uri(), or a cap only on the edge "
     "'not self.is_readonly()', is_readonly() is derived from the cap object, and UnknownNode.rw_uri is only ever "
     "fed by the rw argument; (5) NodeMaker.create_from_cap builds the node from 'writecap or readcap' and keys "
-    "its cache by that cap; _create_and_validate_node / _create_readonly_node pass the caps in (rw, ro) order "
+    "its cache by that cap - decided in create_from_cap and in every helper it calls on self / in its module (key "
+    "builder, uncached constructor, filing helper), each expression expanded into create_from_cap's own parameters by "
+    "following the helper calls with their positional / keyword parameter binding and every plain assignment of a "
+    "local: every uri.from_string parses 'writecap or readcap', _create_from_single_cap is given that parse, every "
+    "keyed use of self._node_cache (subscript, get / setdefault / pop / .., 'in', also through a local alias) has a key "
+    "made of cap-independent parts and exactly that one cap term (sum or tuple), UnknownNode gets (writecap, readcap) "
+    "in order; decorated / recursive / generator helpers, comprehensions in those expressions and unkeyed uses of the "
+    "cache are refused (ANALYSIS-ERROR); _create_and_validate_node / _create_readonly_node pass the caps in (rw, ro) order "
     "and diminish with (None, get_readonly_uri()); (6) MutableFileNode._writekey is stored non-None only under "
     "'not filecap.is_readonly()' or from fresh keys, get_writekey returns it, and the directory packs/decrypts "
     "with self._node.get_writekey(); (7) in _encrypt_rw_uri the AES-CTR key stream (everything given to "
@@ -653,6 +661,256 @@ class Provenance:
             self.value(env, n, x)
 
 
+class Inline:
+    """Value-exact expansion of expressions into the terms of an entry function's parameters (C18.5).
+
+    create_from_cap may keep everything in one body or hand parts of the work to helpers (a key builder, an
+    uncached constructor, a filing helper): what the rule has to judge - the string that is parsed, the key a node
+    is filed under - is the same value either way.  expand() rewrites an expression of any function reached from the
+    entry point into alternatives over the entry point's parameters: a local is replaced by each of its plain
+    assignments (x = E, x op= E, x := E), a parameter of a helper by the argument bound to it at the call that was
+    followed (positionally / by keyword, defaults filled in - the binding is what a swapped parameter list changes),
+    a call of a helper (a method of the own class called on self, static or not, or a function of the same module)
+    by each value it returns.  Anything else that binds a name (loop, with, except, unpacking, nested def) makes
+    the name opaque; comprehensions, lambdas, generators, decorated or recursive helpers are refused (fail closed).
+    sites() lists every own AST node of the entry function and of the helpers reached, with the binding in force."""
+
+    MAX_ALTS = 128
+    MAX_DEPTH = 5
+
+    def __init__(self, idx, top, stop=()):
+        self.idx = idx
+        self.top = top
+        self.stop = set(stop)
+        self._defs = {}
+        self.steps = 0
+
+    # -- definitions of locals
+    def defs(self, fn):
+        if fn.qual in self._defs:
+            return self._defs[fn.qual]
+        exact, opaque = {}, set()
+
+        def dark(t):
+            for x in ast.walk(t):
+                if isinstance(x, ast.Name) and isinstance(x.ctx, (ast.Store, ast.Del)):
+                    opaque.add(x.id)
+        for n in func_own_nodes(fn):
+            if isinstance(n, ast.Assign):
+                for t in n.targets:
+                    if isinstance(t, ast.Name):
+                        exact.setdefault(t.id, []).append(n.value)
+                    else:
+                        dark(t)
+            elif isinstance(n, ast.AnnAssign):
+                if isinstance(n.target, ast.Name) and n.value is not None:
+                    exact.setdefault(n.target.id, []).append(n.value)
+                elif n.value is not None:
+                    dark(n.target)
+            elif isinstance(n, ast.AugAssign):
+                if isinstance(n.target, ast.Name):
+                    exact.setdefault(n.target.id, []).append(aug_value(n))
+            elif isinstance(n, ast.NamedExpr):
+                exact.setdefault(n.target.id, []).append(n.value)
+            elif isinstance(n, (ast.For, ast.AsyncFor)):
+                dark(n.target)
+            elif isinstance(n, (ast.With, ast.AsyncWith)):
+                for it in n.items:
+                    if it.optional_vars is not None:
+                        dark(it.optional_vars)
+            elif isinstance(n, ast.ExceptHandler):
+                if n.name:
+                    opaque.add(n.name)
+            elif isinstance(n, (ast.Import, ast.ImportFrom)):
+                opaque |= {(a.asname or a.name).split(".", 1)[0] for a in n.names}
+            elif isinstance(n, (ast.Global, ast.Nonlocal)):
+                opaque |= set(n.names)
+            elif isinstance(n, ast.Delete):
+                for t in n.targets:
+                    dark(t)
+            elif isinstance(n, (ast.FunctionDef, ast.AsyncFunctionDef, ast.ClassDef)):
+                opaque.add(n.name)
+        self._defs[fn.qual] = (exact, opaque)
+        return self._defs[fn.qual]
+
+    # -- which calls are followed
+    @staticmethod
+    def decorators(g):
+        return [call_tail(d) if isinstance(d, ast.Call) else (attr_path(d) or "?").rsplit(".", 1)[-1]
+                for d in getattr(g.node, "decorator_list", [])]
+
+    def helper(self, fn, c):
+        """(callee, drops its first parameter) for a call that is followed, else (None, False)"""
+        f = c.func
+        if call_tail(c) in self.stop:
+            return None, False
+        g = None
+        if isinstance(f, ast.Attribute) and isinstance(f.value, ast.Name) and f.value.id in ("self", "cls") \
+                and fn.cls is not None and fn.params[:1] == [f.value.id]:
+            g = fn.cls.lookup(f.attr)
+            if g is None:
+                return None, False                     # an attribute that holds a callable: not code of the class
+        elif isinstance(f, ast.Name):
+            exact, opaque = self.defs(fn)
+            if f.id in fn.params or f.id in exact or f.id in opaque:
+                return None, False
+            tgt = self.idx.resolve_expr(fn.module, f)
+            if isinstance(tgt, FuncInfo) and tgt.cls is None and tgt.parent is None and tgt.module is self.top.module:
+                g = tgt
+        if g is None:
+            return None, False
+        decs = self.decorators(g)
+        if isinstance(g.node, (ast.Lambda, ast.AsyncFunctionDef)) or any(d not in ("staticmethod", "classmethod") for d in decs) \
+                or any(isinstance(x, (ast.Yield, ast.YieldFrom, ast.Await)) for x in func_own_nodes(g)):
+            raise AnalysisError("%s calls %s, which cannot be followed (decorated / generator / lambda)" % (
+                fn.qual, g.qual))
+        return g, (g.cls is not None and "staticmethod" not in decs)
+
+    def bind_call(self, fn, c, g, drop_first, binding, depth):
+        a = g.node.args
+        if a.vararg or a.kwarg or any(isinstance(x, ast.Starred) for x in c.args) or any(k.arg is None for k in c.keywords):
+            raise AnalysisError("%s calls %s with */** arguments: cannot bind the parameters" % (fn.qual, g.name))
+        pos = [x.arg for x in list(a.posonlyargs) + list(a.args)]
+        dflt = dict(zip(reversed(pos), reversed(a.defaults)))
+        dflt.update({x.arg: d for (x, d) in zip(a.kwonlyargs, a.kw_defaults) if d is not None})
+        if drop_first:
+            pos = pos[1:]
+        if len(c.args) > len(pos):
+            raise AnalysisError("%s calls %s with too many arguments" % (fn.qual, g.name))
+        raw = dict(zip(pos, c.args))
+        known = set(pos) | {x.arg for x in a.kwonlyargs}
+        for k in c.keywords:
+            if k.arg not in known or k.arg in raw:
+                raise AnalysisError("%s calls %s with an unknown / repeated keyword %s" % (fn.qual, g.name, k.arg))
+            raw[k.arg] = k.value
+        out = {}
+        for q in known:
+            if q in raw:
+                out[q] = self._expand(fn, raw[q], binding, frozenset(), depth)
+            elif q in dflt and isinstance(dflt[q], ast.Constant):
+                out[q] = [dflt[q]]
+            else:
+                out[q] = [ast.Name(id="<%s.%s>" % (g.name, q), ctx=ast.Load())]
+        if drop_first and g.node.args.args:
+            first = (list(a.posonlyargs) + list(a.args))[0].arg
+            out[first] = [ast.Name(id="self", ctx=ast.Load())] if first == "self" else [ast.Name(id="<%s>" % first, ctx=ast.Load())]
+        return out
+
+    def returned(self, g):
+        rets = return_nodes(g)
+        vals = [n.ast.value if n.ast.value is not None else ast.Constant(value=None) for n in rets]
+        if find_path_avoiding(g.cfg(), lambda m: m.kind == "exit", gate_node=is_return):
+            vals.append(ast.Constant(value=None))
+        return vals
+
+    # -- expansion
+    def expand(self, fn, e, binding):
+        out = self._expand(fn, e, binding, frozenset(), 0)
+        if not out:
+            raise AnalysisError("%s: %s is defined only in terms of itself" % (fn.qual, ast.unparse(e)))
+        seen, uniq = set(), []
+        for x in out:
+            k = ast.dump(x)
+            if k not in seen:
+                seen.add(k)
+                uniq.append(x)
+        return uniq
+
+    def _expand(self, fn, e, binding, visiting, depth):
+        self.steps += 1
+        if self.steps > 20000:
+            raise AnalysisError("%s: expansion does not terminate" % fn.qual)
+        if e is None or isinstance(e, ast.Constant):
+            return [e]
+        if isinstance(e, ast.Name):
+            exact, opaque = self.defs(fn)
+            out = []
+            is_param = e.id in fn.params
+            if is_param:
+                if e.id in binding:
+                    out += binding[e.id]
+                elif fn is self.top:
+                    out.append(e)
+                else:
+                    out.append(ast.Name(id="<%s.%s>" % (fn.name, e.id), ctx=ast.Load()))
+            if e.id in opaque:
+                out.append(ast.Name(id="<%s.%s>" % (fn.name, e.id), ctx=ast.Load()))
+            if e.id in exact:
+                key = (fn.qual, e.id)
+                if key not in visiting:
+                    for d in exact[e.id]:
+                        out += self._expand(fn, d, binding, visiting | {key}, depth)
+            elif not is_param and e.id not in opaque:
+                out.append(e)                          # self, a module-level name, a builtin
+            return out
+        if isinstance(e, (ast.ListComp, ast.SetComp, ast.DictComp, ast.GeneratorExp, ast.Lambda, ast.Yield,
+                          ast.YieldFrom, ast.Await)):
+            raise AnalysisError("%s: cannot expand %s" % (fn.qual, ast.unparse(e)))
+        if isinstance(e, ast.NamedExpr):
+            return self._expand(fn, e.value, binding, visiting, depth)
+        if isinstance(e, ast.Call):
+            g, drop = self.helper(fn, e)
+            if g is not None:
+                if depth >= self.MAX_DEPTH:
+                    raise AnalysisError("%s: helper calls nested deeper than %d levels (%s)" % (fn.qual, self.MAX_DEPTH, g.qual))
+                b = self.bind_call(fn, e, g, drop, binding, depth)
+                out = []
+                for rv in self.returned(g):
+                    out += self._expand(g, rv, b, frozenset(), depth + 1)
+                return out
+        # any other expression: the same node over every combination of its expanded operands
+        combos = [[]]
+        for (name, val) in ast.iter_fields(e):
+            if isinstance(val, ast.expr):
+                alts = self._expand(fn, val, binding, visiting, depth)
+            elif isinstance(val, list) and val and all(isinstance(x, ast.expr) for x in val):
+                alts = [[]]
+                for x in val:
+                    xs = self._expand(fn, x, binding, visiting, depth)
+                    alts = [p + [y] for p in alts for y in xs]
+                    if len(alts) > self.MAX_ALTS:
+                        raise AnalysisError("%s: too many alternatives for %s" % (fn.qual, ast.unparse(e)))
+            elif isinstance(val, list) and val and all(isinstance(x, ast.keyword) for x in val):
+                alts = [[]]
+                for x in val:
+                    xs = self._expand(fn, x.value, binding, visiting, depth)
+                    alts = [p + [ast.keyword(arg=x.arg, value=y)] for p in alts for y in xs]
+                    if len(alts) > self.MAX_ALTS:
+                        raise AnalysisError("%s: too many alternatives for %s" % (fn.qual, ast.unparse(e)))
+            else:
+                alts = [val]
+            combos = [p + [(name, a)] for p in combos for a in alts]
+            if len(combos) > self.MAX_ALTS:
+                raise AnalysisError("%s: too many alternatives for %s" % (fn.qual, ast.unparse(e)))
+        out = []
+        for p in combos:
+            new = copy.copy(e)
+            for (name, a) in p:
+                setattr(new, name, a)
+            out.append(new)
+        return out
+
+    # -- every AST node of the entry point and of the helpers reached from it
+    def sites(self):
+        out = []
+
+        def go(fn, binding, depth, active):
+            for x in func_own_nodes(fn):
+                out.append((fn, binding, x))
+                if isinstance(x, ast.Call):
+                    g, drop = self.helper(fn, x)
+                    if g is None:
+                        continue
+                    if g.qual in active:
+                        raise AnalysisError("%s calls %s recursively: cannot follow" % (fn.qual, g.qual))
+                    if depth >= self.MAX_DEPTH:
+                        raise AnalysisError("%s: helper calls nested deeper than %d levels (%s)" % (
+                            fn.qual, self.MAX_DEPTH, g.qual))
+                    go(g, self.bind_call(fn, x, g, drop, binding, depth), depth + 1, active | {g.qual})
+        go(self.top, {}, 0, frozenset([self.top.qual]))
+        return out
+
+
 def run(ctx: Context):
     idx = ctx.idx
 
@@ -895,7 +1153,7 @@ def run(ctx: Context):
                     r.violation(f2, f2.loc(nd), "%s re-binds UnknownNode.rw_uri outside __init__" % short(f2))
 
     # -- 5. which cap a child is built from -----------------------------------
-    with ctx.rule("C18.5", "R1/R7", "create_from_cap builds from 'writecap or readcap' and caches by that cap; dirnode "
+    with ctx.rule("C18.5", "R1/R7", "create_from_cap (helpers followed) builds from 'writecap or readcap' and caches by that cap; dirnode "
                   "factories pass (rw, ro) in order; _create_readonly_node diminishes with (None, get_readonly_uri())",
                   expected=5) as r:
         fn = idx.func("nodemaker:NodeMaker.create_from_cap")
@@ -906,60 +1164,134 @@ def run(ctx: Context):
             raise AnchorVanished("create_from_cap(writecap, readcap, ..) signature changed")
         big_ok = {norm_src("writecap or readcap"), norm_src("writecap if writecap else readcap"),
                   norm_src("readcap if not writecap else writecap")}
-        fs = cfg.find(has_call("from_string"))
+        # The body may be one function or split into helpers (key builder, uncached constructor, filing helper):
+        # every construct below is looked for in create_from_cap and in the helpers it calls on self / in its module,
+        # and every expression is judged after expansion into create_from_cap's own parameters, with the helpers'
+        # parameters replaced by the arguments bound to them at the call followed (Inline).
+        inl = Inline(idx, fn, stop={"from_string", "_create_from_single_cap"})
+        sites = inl.sites()
+        caps = set(ps[:2])
+
+        def shown(alts):
+            return " | ".join(sorted({norm_plain(a) for a in alts}))
+        fs = [(g, b, x) for (g, b, x) in sites if isinstance(x, ast.Call) and call_tail(x) == "from_string"]
         if not fs:
             raise AnchorVanished("create_from_cap no longer parses the cap with uri.from_string")
-        for n in fs:
-            c = calls_at(n, "from_string")[0]
-            r.site(fn, c, "cap parsed")
-            s = fnorm.norm(n, arg(c, 0))
-            r.require(s in big_ok, fn, fn.loc(c), "the child node is built from %s, not from 'writecap or readcap'" % s)
-        mk = cfg.find(has_call("_create_from_single_cap"))
+        for (g, b, c) in fs:
+            r.site(g, c, "cap parsed")
+            a0 = arg(c, 0)
+            alts = inl.expand(g, a0, b) if a0 is not None else []
+            r.require(bool(alts) and all(norm_plain(a) in big_ok for a in alts), g, g.loc(c),
+                      "the child node is built from %s, not from 'writecap or readcap'" % shown(alts))
+        mk = [(g, b, x) for (g, b, x) in sites if isinstance(x, ast.Call) and call_tail(x) == "_create_from_single_cap"]
         if not mk:
             raise AnchorVanished("create_from_cap no longer calls _create_from_single_cap")
-        for n in mk:
-            c = calls_at(n, "_create_from_single_cap")[0]
-            a0 = fnorm.resolve(n, arg(c, 0))
-            r.require(isinstance(a0, ast.Call) and call_tail(a0) == "from_string", fn, fn.loc(c),
-                      "node is created from %s, not from the parsed cap" % src(fn, a0))
-        # cache key contains the cap string itself
+        for (g, b, c) in mk:
+            a0 = arg(c, 0)
+            alts = inl.expand(g, a0, b) if a0 is not None else []
+            ok = bool(alts) and all(isinstance(a, ast.Call) and call_tail(a) == "from_string" and arg(a, 0) is not None
+                                    and norm_plain(arg(a, 0)) in big_ok for a in alts)
+            r.require(ok, g, g.loc(c), "node is created from %s, not from the cap parsed out of 'writecap or readcap'"
+                      % shown(alts))
+        # cache key contains the cap string itself: every keyed use of self._node_cache (subscript, get / setdefault /
+        # pop / ..., 'in'), wherever it sits
+        CACHE = "self._node_cache"
+        KEYED = {"get", "setdefault", "pop", "__getitem__", "__setitem__", "__contains__", "__delitem__"}
+
+        def is_cache(g, b, e):
+            if attr_path(e) == CACHE and "self" in g.params[:1]:
+                return True
+            if isinstance(e, ast.Name):
+                exact, _op = inl.defs(g)
+                if e.id in exact or (e.id in g.params and e.id in b):
+                    al = inl.expand(g, e, b)
+                    hit = [attr_path(a) == CACHE for a in al]
+                    if any(hit) and not all(hit):
+                        raise AnalysisError("%s: %s is the node cache on some paths only" % (g.qual, e.id))
+                    return all(hit)
+            return False
         keys = []
-        for n in cfg.nodes:
-            for e in node_exprs(n):
-                for x in own_nodes(e):
-                    if isinstance(x, ast.Subscript) and attr_path(x.value) == "self._node_cache":
-                        keys.append((n, x))
+        accounted = set()
+        for (g, b, x) in sites:
+            if isinstance(x, ast.Subscript) and is_cache(g, b, x.value):
+                keys.append((g, b, x, x.slice))
+                accounted.add(id(x.value))
+            elif isinstance(x, ast.Call) and isinstance(x.func, ast.Attribute) and is_cache(g, b, x.func.value):
+                accounted.add(id(x.func.value))
+                if x.func.attr in KEYED:
+                    if not x.args:
+                        raise AnalysisError("%s: %s without a positional key" % (g.qual, src(g, x)))
+                    keys.append((g, b, x, x.args[0]))
+                elif x.func.attr != "clear":
+                    raise AnalysisError("%s uses the node cache in a way whose key cannot be told (%s)" % (g.qual, src(g, x)))
+            elif isinstance(x, ast.Compare) and len(x.ops) == 1 and isinstance(x.ops[0], (ast.In, ast.NotIn)) \
+                    and is_cache(g, b, x.comparators[0]):
+                accounted.add(id(x.comparators[0]))
+                keys.append((g, b, x, x.left))
+            elif isinstance(x, (ast.Assign, ast.AnnAssign, ast.NamedExpr)) and x.value is not None \
+                    and attr_path(x.value) == CACHE:
+                accounted.add(id(x.value))         # an alias: judged where the name is used
+        for (g, b, x) in sites:
+            if isinstance(x, ast.Attribute) and attr_path(x) == CACHE and id(x) not in accounted:
+                raise AnalysisError("%s uses the node cache in a way whose key cannot be told (line %s)" % (
+                    g.qual, getattr(x, "lineno", "?")))
         if not keys:
             raise AnchorVanished("create_from_cap no longer uses self._node_cache")
-        r.site(fn, keys[0][1], "cache key (%d uses)" % len(keys))
-        nflat = N(fn)
-        defs = def_exprs(fn)
+        r.site(keys[0][0], keys[0][2], "cache key (%d uses)" % len(keys))
+
+        def mentions_cap(e):
+            return any(isinstance(y, ast.Name) and y.id in caps for y in ast.walk(e))
+
+        def plain(e):
+            """a value that depends on nothing but constants and the other parameters of create_from_cap"""
+            for y in ast.walk(e):
+                if isinstance(y, ast.Name):
+                    if y.id in caps or not (y.id in fn.params or y.id in ("bool", "int", "bytes", "str", "True", "False")):
+                        return False
+                elif isinstance(y, ast.Call):
+                    if not (isinstance(y.func, ast.Name) and y.func.id in ("bool", "int", "bytes", "str")):
+                        return False
+                elif not isinstance(y, (ast.Constant, ast.IfExp, ast.BoolOp, ast.UnaryOp, ast.Compare, ast.boolop,
+                                        ast.unaryop, ast.cmpop, ast.expr_context, ast.BinOp, ast.operator,
+                                        ast.JoinedStr, ast.FormattedValue, ast.Tuple)):
+                    return False
+            return True
 
         def key_expr_ok(e):
-            """<constant prefix> + (writecap or readcap)"""
+            """<parts independent of the caps> + (writecap or readcap), as a sum or a tuple; a conditional whose test
+            does not look at the caps is judged arm by arm"""
+            if isinstance(e, ast.IfExp) and plain(e.test):
+                return key_expr_ok(e.body) and key_expr_ok(e.orelse)
             ops = []
 
             def flat(x):
                 if isinstance(x, ast.BinOp) and isinstance(x.op, ast.Add):
                     flat(x.left)
                     flat(x.right)
+                elif isinstance(x, ast.Tuple):
+                    for y in x.elts:
+                        flat(y)
                 else:
                     ops.append(x)
             flat(e)
-            var = [o for o in ops if not isinstance(o, ast.Constant)]
-            return len(var) == 1 and nflat.norm(var[0]) in big_ok
-        for (n, x) in keys:
-            k = x.slice
-            exprs = defs.get(k.id, []) if isinstance(k, ast.Name) and k.id not in fn.params else [k]
-            ok = bool(exprs) and all(key_expr_ok(e) for e in exprs)
-            r.require(ok, fn, fn.loc(x),
-                      "node cache is keyed by %s (= %s): a node cached for one cap could be returned for another"
-                      % (src(fn, k), " | ".join(src(fn, e) for e in exprs)))
+            var = [o for o in ops if mentions_cap(o)]
+            rest = [o for o in ops if not mentions_cap(o)]
+            return len(var) == 1 and norm_plain(var[0]) in big_ok and all(plain(o) for o in rest)
+        for (g, b, x, k) in keys:
+            alts = inl.expand(g, k, b)
+            r.count(len(alts))
+            ok = bool(alts) and all(key_expr_ok(a) for a in alts)
+            r.require(ok, g, g.loc(x),
+                      "node cache is keyed by %s (= %s in terms of create_from_cap's arguments), not by <prefix> + "
+                      "(writecap or readcap), the cap the node is built from: a node cached for one cap could be returned "
+                      "for another (the writeable node for the read cap)" % (src(g, k), shown(alts)))
         # UnknownNode gets the two slots in order
-        for c in calls_in_func(fn, "UnknownNode"):
-            if len(c.args) >= 2 and not (isinstance(c.args[0], ast.Constant) and isinstance(c.args[1], ast.Constant)):
-                r.require(attr_path(c.args[0]) == "writecap" and attr_path(c.args[1]) == "readcap", fn, fn.loc(c),
-                          "UnknownNode is given %s" % src(fn, c))
+        for (g, b, c) in sites:
+            if isinstance(c, ast.Call) and call_tail(c) == "UnknownNode" and len(c.args) >= 2 \
+                    and not (isinstance(c.args[0], ast.Constant) and isinstance(c.args[1], ast.Constant)):
+                a0, a1 = inl.expand(g, c.args[0], b), inl.expand(g, c.args[1], b)
+                r.require(all(attr_path(a) == "writecap" for a in a0) and all(attr_path(a) == "readcap" for a in a1),
+                          g, g.loc(c), "UnknownNode is given (%s, %s) for its (write, read) slots" % (shown(a0), shown(a1)))
         # dirnode factory
         f2 = idx.func(DN + "._create_and_validate_node")
         p2 = first_positional_params(f2)
